@@ -202,7 +202,12 @@ class Conc(Part):
         terms = []
         for smp in (obs.get("samples") or []) + (obs.get("bad") or []):
             terms.append(self.case_coq(inp, smp["obs"]["results"], smp["sched"], smp["trace"]))
-        for t in obs.get("terminals") or []:
+        # the linearizability search in Coq is a brute-force merge search: fine for the small
+        # exhaustive configurations; for the long random-walk programs only a bounded number of
+        # the distinct terminal result vectors is re-judged in Coq (the harness judged all of them)
+        nops = sum(len(p) for p in inp["threads"])
+        cap_terms = None if nops <= 6 else (60 if nops <= 9 else 12)
+        for t in (obs.get("terminals") or [])[:cap_terms]:
             terms.append(self.case_coq(inp, t["results"]))
         return terms
 
